@@ -869,7 +869,7 @@ func c10OutlinesSubset(r *run.Run) {
 // too few names reads as): subsetting keeps the names that exist.
 func c10ShortNames(r *run.Run) {
 	r.Explore(explore.Config{Name: "C10.subset-short-names"},
-		"6-glyph glyf fonts (6 component graphs) with a names list of 0..5 names (shorter than the glyph count), composites with or without an instruction block of length 0, x ALL duplicate-free glyph lists starting with glyph 0 of length 1..4: Subset does not panic, glyph i of the subset has the name (possibly none) and the width of the listed glyph, and the subset can be written and read back",
+		"6-glyph glyf fonts (6 component graphs) with a names list of 0..5 names (shorter than the glyph count), composites with or without an instruction block of length 0, with or without advance widths, with or without a Macintosh format 0 cmap record, x ALL duplicate-free glyph lists starting with glyph 0 of length 1..4: Subset does not panic, glyph i of the subset has the name (possibly none) and the width of the listed glyph, and the subset can be written and read back",
 		func(c *explore.Ctx) {
 			f, _ := FontFromChoices(gen.FontOpts{NoMeta: true, NoLayout: true}, gen.KindGlyf, 1, 0, 0, 0)
 			gi := c.Choose(len(c10Graphs), "component graph")
@@ -900,8 +900,19 @@ func c10ShortNames(r *run.Run) {
 			for i := 0; i < nn; i++ {
 				ol.Names = append(ol.Names, []string{".notdef", "A", "B", "f", "i", "fi"}[i])
 			}
+			nilWidths := c.Bool("no advance widths")
+			if nilWidths {
+				ol.Widths = nil
+			}
 			f.Outlines = ol
 			f.Gsub, f.Gpos, f.Gdef = nil, nil, nil
+			// a byte-encoding (format 0) subtable under the Macintosh key next to the Windows one
+			macRecord := c.Bool("Macintosh format 0 cmap record")
+			var f0 cmap.Format0
+			if macRecord {
+				f0.Data['A'], f0.Data['B'], f0.Data['f'], f0.Data['i'], f0.Data['z'] = 1, 2, 3, 4, 5
+				f.CMapTable = cmap.Table{{PlatformID: 1, EncodingID: 0}: f0.Encode(0), {PlatformID: 3, EncodingID: 1}: cmap.Format4{'A': 1, 'B': 2, 'f': 3, 'i': 4, 'z': 5}.Encode(0)}
+			}
 			list := []glyph.ID{0}
 			used := map[glyph.ID]bool{0: true}
 			n := c.Choose(4, "further glyphs")
@@ -916,7 +927,7 @@ func c10ShortNames(r *run.Run) {
 				used[g] = true
 				list = append(list, g)
 			}
-			desc := fmt.Sprintf("graph %d, %d names, empty instruction blocks %v, list %v", gi, nn, emptyInstr, list)
+			desc := fmt.Sprintf("graph %d, %d names, empty instruction blocks %v, no widths %v, mac record %v, list %v", gi, nn, emptyInstr, nilWidths, macRecord, list)
 			c.Sample(func() any { return desc })
 			c.Outcome(desc)
 			c.Nontrivial()
@@ -930,6 +941,23 @@ func c10ShortNames(r *run.Run) {
 				if sub.GlyphName(glyph.ID(i)) != f.GlyphName(og) || sub.GlyphWidth(glyph.ID(i)) != f.GlyphWidth(og) {
 					c.Fail("C10.name", "short names", "glyph %d (original %d): name %q width %v, originally %q width %v; %s", i, og, sub.GlyphName(glyph.ID(i)), sub.GlyphWidth(glyph.ID(i)), f.GlyphName(og), f.GlyphWidth(og), desc)
 					return
+				}
+			}
+			if macRecord {
+				msub, err := sub.CMapTable.Get(cmap.Key{PlatformID: 1, EncodingID: 0})
+				if err != nil {
+					c.Fail("C10.cmap", "short names / mac record", "the subset has no usable Macintosh cmap record: %v; %s", err, desc)
+					return
+				}
+				for code, og := range f0.Data {
+					want := glyph.ID(0)
+					if k := slices.Index(listCopy, glyph.ID(og)); og != 0 && k >= 0 {
+						want = glyph.ID(k)
+					}
+					if got := msub.Lookup(rune(code)); code < 128 && got != want {
+						c.Fail("C10.cmap", "short names / mac record", "Macintosh record: code %d maps to glyph %d in the subset, want %d; %s", code, got, want, desc)
+						return
+					}
 				}
 			}
 			buf := &bytes.Buffer{}
